@@ -21,6 +21,10 @@ fam({'C01': ('fifo', 'fifo'), 'C02': ('txn', 'txn'), 'C03': ('retention', 'reten
      'C04': ('reclaim', 'reclaim'), 'C05': ('wake', 'wake'), 'C12': ('close', 'close')},
     driver='buffer', tv='BufferTV', mc_quick=[('BufferMC', 'BufferMC_quick')], mc_thorough=[('BufferMC', 'BufferMC')],
     n=(70, 150, 1500, 4000))
+# specification -> implementation for the Buffer: all call sequences of one caller up to a depth, per cleaner configuration
+for _pid, _q, _t in (('C01', ['BufferGEN_quick'], ['BufferGEN']), ('C02', ['BufferGEN_quick'], ['BufferGEN']),
+                     ('C03', ['BufferGEN_quick_fixed'], ['BufferGEN_fixed', 'BufferGEN_fixed0'])):
+    F[_pid] = dict(F[_pid], gen=dict(spec='BufferGEN', cfgs_quick=_q, cfgs_thorough=_t, quick_sample=500))
 # the lock / condition-variable level protocol of cleaner, cooldown timer, WaitCond watcher and a blocked Get; the _neg
 # configurations switch a repaired / seeded defect back on and MUST be rejected by TLC
 for _pid, _cfgs in {'C04': ['BufferL2', 'BufferL2_nocool', 'BufferL2_fixed', 'BufferL2_fixed0', 'BufferL2_d1_neg', 'BufferL2_d4_neg'],
@@ -29,10 +33,13 @@ for _pid, _cfgs in {'C04': ['BufferL2', 'BufferL2_nocool', 'BufferL2_fixed', 'Bu
     F[_pid]['mc_quick'] = list(F[_pid]['mc_quick']) + [('BufferL2', c) for c in _cfgs]
     F[_pid]['mc_thorough'] = list(F[_pid]['mc_thorough']) + [('BufferL2', c) for c in _cfgs] + [('BufferL2', 'BufferL2_big')]
 F['C12']['legs'] = [dict(driver='channel', profile='close', prop='close', tv='ChannelTV', n=(60, 120, 1000, 3000),
-                       mc_quick=[('ChannelMC', 'ChannelMC')], mc_thorough=[('ChannelMC', 'ChannelMC_big')])]
+                       mc_quick=[('ChannelMC', 'ChannelMC')], mc_thorough=[('ChannelMC', 'ChannelMC_big')]),
+                  # SubscribeCancel's goroutine / registration must be gone once its context is cancelled (final census in NotifierTV)
+                  dict(driver='notifier', profile='main', prop='all', tv='NotifierTV', n=(40, 80, 1000, 3000),
+                       mc_quick=[('NotifierMC', 'NotifierMC_quick')], mc_thorough=[('NotifierMC', 'NotifierMC_quick')])]
 fam({'C13': ('main', 'all')},
     driver='channel', tv='ChannelTV', mc_quick=[('ChannelMC', 'ChannelMC')], mc_thorough=[('ChannelMC', 'ChannelMC_big')],
-    n=(100, 300, 2000, 6000), gen=dict(spec='ChannelGEN', cfg_quick='ChannelGEN_quick', cfg_thorough='ChannelGEN'))
+    n=(100, 300, 2000, 6000), gen=dict(spec='ChannelGEN', cfgs_quick=['ChannelGEN_quick'], cfgs_thorough=['ChannelGEN']))
 fam({'C15': ('main', 'all')},
     driver='notifier', tv='NotifierTV', mc_quick=[('NotifierMC', 'NotifierMC_quick')], mc_thorough=[('NotifierMC', 'NotifierMC_big')],
     n=(70, 120, 2000, 4000))
@@ -113,16 +120,20 @@ def generated(ctx, f):
     """specification -> implementation: TLC enumerates every behaviour (call sequence) of the generator spec up to its
     depth; each is replayed against the real code under the controlled scheduler and validated like any other trace"""
     g = f['gen']
-    cfg = g['cfg_quick'] if ctx.quick else g['cfg_thorough']
-    job, out = run_mc(ctx, g['spec'], cfg, workers=1, timeout=1800, name='gen_' + cfg)
-    progs = sorted(set(re.findall(r'<<"GEN", "(.*)">>', out)))
+    progs = []
+    for cfg in (g['cfgs_quick'] if ctx.quick else g['cfgs_thorough']):
+        job, out = run_mc(ctx, g['spec'], cfg, workers=1, timeout=1800, name='gen_' + cfg)
+        progs += re.findall(r'<<"GEN", "(.*)">>', out)
+    progs = sorted(set(progs))
+    cfg = '+'.join(g['cfgs_quick'] if ctx.quick else g['cfgs_thorough'])
     if not progs:
         raise Infra(f'{g["spec"]}/{cfg} generated no behaviours')
     total = len(progs)
-    if ctx.quick and len(progs) > 1200:
+    cap = g.get('quick_sample', 1200)
+    if ctx.quick and len(progs) > cap:
         import random
         random.Random(ctx.seed).shuffle(progs)
-        progs = sorted(progs[:1200])          # quick tier: a seeded sample; the thorough tier replays all of them
+        progs = sorted(progs[:cap])          # quick tier: a seeded sample; the thorough tier replays all of them
     pf = f'{ctx.work}/gen_programs.ndjson'
     with open(pf, 'w') as fh:
         for p in progs:
